@@ -1,6 +1,7 @@
 import Driver.Bytes
 import FV.Spec.Content
 import FV.Spec.Serialize
+import FV.Spec.SizeSpec
 /-! Model side of the emplacement suite (`E`, `F`, `A` lines). -/
 open FV
 namespace Drv
@@ -33,7 +34,9 @@ def runE (t : Ty) (a16 : Nat) (i : Init) (pre : Bytes) (withSpec : Bool) : Strin
   | .fault f => s!"FAULT:{repr f}"
   | .err e => s!"MODEL-ERR {errStr e}"
   | .ok (o, b2) =>
-    let base := s!"{resStr o.res} {maskedHex o.bytes b2}"
+    -- the specified size of the content (`sizeSpec`), or `unrep` when the content cannot be represented (`Rep`)
+    let need := if repB t i then toString (sizeSpec t i) else "unrep"
+    let base := s!"{resStr o.res} {maskedHex o.bytes b2} need={need}"
     match o.res with
     | .error _ => base
     | .ok () =>
